@@ -9,6 +9,20 @@ hook_commits = [l.split()[0] for l in HOOK_COMMITS if "verif" in l.lower() and n
 
 # id -> (engine, technique, level text, level note, design ref)
 CHECKS = {
+    "C20": (
+        "E3",
+        "full product of input templates (every result/print/echo/info path and every diagnostic family that quotes user text) x HTML payload alphabet, rendered as the web front end does, judged by a strict tag/entity scanner",
+        "Every (template x payload) case is interpreted and rendered exactly as numbat-wasm does in HTML mode (HtmlFormatter for result markup, HtmlWriter + codespan for diagnostics, plus info/list output); the produced HTML is scanned: every `<` must open or close one of the renderer's own span elements, spans must balance and every `&` must start a character reference.",
+        "Trusted: the scanner's whitelist (only <span class=\"numbat-*\">); payload alphabet of 9 strings; templates enumerate the kinds of output that embed user text.",
+        "§4 C20",
+    ),
+    "C24": (
+        "E3",
+        "complete enumeration of the finite set of (function, @example) pairs, each executed in a prelude+currencies session",
+        "All (function, example) pairs exposed by the standard library's documentation metadata (cross-checked against the number of @example decorators in the module sources) are executed the way the documentation generator does; each must type-check and evaluate without error. Examples depending on command-line arguments are excluded by rule (text contains `args()`).",
+        "Trusted: test exchange rates, TZ=UTC; 'runs' means interpret returns Ok.",
+        "§4 C24",
+    ),
     "C03": (
         "E3",
         "exhaustive sweep: every accepted unit identifier, every ordered unit pair under * / (+ -), every expression tree to depth 2-3 over a collision alphabet, against a reference evaluator built from the units' direct definitions",
